@@ -8,11 +8,15 @@ import (
 	"strings"
 
 	msgv1 "cosmossdk.io/api/cosmos/msg/v1"
+	"cosmossdk.io/log"
+	authcodec "github.com/cosmos/cosmos-sdk/codec/address"
+	"github.com/cosmos/cosmos-sdk/runtime"
 	sdk "github.com/cosmos/cosmos-sdk/types"
 	gogoproto "github.com/cosmos/gogoproto/proto"
 	"google.golang.org/protobuf/proto"
 	"google.golang.org/protobuf/reflect/protoreflect"
 
+	"github.com/noble-assets/orbiter/v2/keeper"
 	adaptertypes "github.com/noble-assets/orbiter/v2/types/component/adapter"
 	executortypes "github.com/noble-assets/orbiter/v2/types/component/executor"
 	forwardertypes "github.com/noble-assets/orbiter/v2/types/component/forwarder"
@@ -177,6 +181,9 @@ func cloneMsg(m sdk.Msg) sdk.Msg { return gogoproto.Clone(m).(sdk.Msg) }
 
 // CheckC10 enumerates the Msg RPC surface and fires every RPC with impostor signers.
 func CheckC10(e *fw.Env, l *Lab) {
+	if e.Shard == 1%e.Shards {
+		noAuthorityKeeperC10(e, l)
+	}
 	w := l.W
 	rpcs := DiscoverMsgRPCs()
 	e.Res.Notes["rpcs_discovered"] = fmt.Sprint(len(rpcs))
@@ -308,6 +315,34 @@ func CheckC10(e *fw.Env, l *Lab) {
 }
 
 // checkC10T sends impostor-signed transactions through FinalizeBlock on a fresh world.
+// noAuthorityKeeperC10: a keeper cannot be built with an authority that denotes no account; if
+// it can, no signer that denotes no account may pass its authority check.
+func noAuthorityKeeperC10(e *fw.Env, l *Lab) {
+	app := l.W.App
+	for _, auth := range []string{"", " ", "noble", "noble1", "not-an-address", "cosmos1fl48vsnmsdzcv85q5d2q4z5ajdha8yu34mf0eh", strings.ToUpper(app.OrbiterKeeper.Authority()[:20])} {
+		var k *keeper.Keeper
+		func() {
+			defer func() { _ = recover() }()
+			k = keeper.NewKeeper(l.W.Cdc, authcodec.NewBech32Codec("noble"), log.NewNopLogger(), runtime.EventService{},
+				runtime.NewKVStoreService(app.GetKey("orbiter")), auth, app.BankKeeper)
+		}()
+		e.Res.Eval()
+		if k == nil {
+			e.Res.Count("keeper-with-invalid-authority-refused")
+			e.Res.Sig("construct|refused|%q", auth)
+			continue
+		}
+		for _, signer := range []string{auth, "", strings.TrimSpace(auth)} {
+			if err := k.RequireAuthority(signer); err == nil {
+				e.Res.Violate(fw.Violation{Property: "C10", Kind: "signer-denoting-no-account-accepted", Tags: map[string]string{"at": "keeper-construction"},
+					Detail:  fmt.Sprintf("a keeper can be built with authority %q (no account) and then accepts signer %q", auth, signer),
+					Witness: map[string]any{"authority": auth, "signer": signer}})
+			}
+		}
+		e.Res.Sig("construct|built|%q", auth)
+	}
+}
+
 func checkC10T(e *fw.Env, rpcs []RPC) {
 	if e.Shard != 0 {
 		return
